@@ -408,7 +408,46 @@ def check_c(ck, repo):
                 kinds.append(("output-edges" if okout else "output-edges-bad", s_))
     order = [k for k, _ in kinds if not k.startswith("emit-other")]
     want_ = ["emit-node", "input-edges", "update-columns", "emit-schema", "output-edges"]
-    ck.verdict(order == want_, "C16.c", pd, f"order {order}", "node declared, then its input edges (resolved through the ports registered by earlier steps), then its outputs are registered, declared and linked", f"statement order in the node branch is {order}; expected {want_}: an edge may refer to a node/port that is not declared yet, an input edge may resolve to the node's own output (cycle), or a port is registered under another index than the one declared")
+    if set(order) != set(want_) and not any(k.endswith("-bad") for k in order):
+        # other spellings of the same statements: roles by what each top-level statement of the step
+        # does to the table of ports (reads it for the inputs, writes it, reads it for the outputs)
+        roles = []
+        for s_ in rest:
+            txt = _nt(s_) if not isinstance(s_, (ast.For, ast.If, ast.While)) else "\n".join(_nt(x) for x in ast.walk(s_) if isinstance(x, (ast.Assign, ast.Expr, ast.AugAssign)))
+            it_txt = ex.text(s_.iter, pd, s_) if isinstance(s_, ast.For) else ""
+            writes = bool(re.search(r"\b%s\[[^\]]+\] = " % re.escape(tab), txt)) or f"{tab}.update(" in txt
+            reads = f"{tab}.get(" in txt or bool(re.search(r"\b%s\[" % re.escape(tab), txt.replace(f"{tab}[", f"{tab}[", 1))) and not writes
+            appends = f"{out_list}.append(" in txt and "->" in txt
+            if appends and "['inputs']" in it_txt:
+                roles.append(("input-edges", s_))
+            elif appends and ("['outputs']" in it_txt or reads and "['inputs']" not in it_txt):
+                roles.append(("output-edges", s_))
+            elif writes:
+                roles.append(("update-columns", s_))
+        rnames = [r for r, _ in roles]
+        if rnames.count("input-edges") == 1 and rnames.count("update-columns") >= 1 and rnames.count("output-edges") == 1:
+            # the edges of the step are attached to the step's own node
+            ivx_ = want(repo, iv, pd, rest[0])
+            ends_ok = True
+            for rn_, s_ in roles:
+                if rn_ not in ("input-edges", "output-edges"):
+                    continue
+                apps_ = [c_ for c_ in ast.walk(s_) if isinstance(c_, ast.Call) and src_of(c_.func) == f"{out_list}.append" and c_.args]
+                for c_ in apps_:
+                    alts_ = [_nt(x_) for _, x_, _ in guarded_values(repo, pd, c_.args[0], stmt_of(c_))] or [_nt(ex.norm_expr(c_.args[0], pd, stmt_of(c_)))]
+                    alts_ += [_nt(ex.norm_expr(c_.args[0], pd, stmt_of(c_)))]
+                    for a_ in alts_:
+                        a_ = a_.replace(f"{{f'node{{{ivx_}}}'}}", f"node{{{ivx_}}}")  # a nested f-string spliced in place
+                        good = (f"-> node{{{ivx_}}};" in a_) if rn_ == "input-edges" else (f"  node{{{ivx_}}} -> " in a_)
+                        ends_ok = ends_ok and good
+            if not ends_ok:
+                ck.violated("C16.c", pd, f"order {rnames}", "an edge of the step is not attached to the step's own node (node{i}): the graph links a transformation to the inputs or outputs of another one")
+            okord = rnames.index("input-edges") < rnames.index("update-columns") and max(i_ for i_, r in enumerate(rnames) if r == "update-columns") < rnames.index("output-edges")
+            ck.verdict(okord, "C16.c", pd, f"order {rnames}", "the input edges are resolved through the ports registered by earlier steps before this step registers its own outputs; the output edges come after", f"statement order in the node branch is {rnames}: the step registers its outputs before its input edges are resolved (an input with the same name resolves to the node's own output: a cycle, and the step is cut off from the inputs), or links outputs that are not registered yet")
+        else:
+            ck.unknown("C16.c", pd, f"order {order} / {rnames}", "the statements of the node branch that resolve the input edges, register the outputs and link them were not all recognised")
+    else:
+        ck.verdict(order == want_, "C16.c", pd, f"order {order}", "node declared, then its input edges (resolved through the ports registered by earlier steps), then its outputs are registered, declared and linked", f"statement order in the node branch is {order}; expected {want_}: an edge may refer to a node/port that is not declared yet, an input edge may resolve to the node's own output (cycle), or a port is registered under another index than the one declared")
     # graph delimiters and the list of lines
     st = [_nt(s_) for s_ in own_nodes(pd.node) if isinstance(s_, (ast.Assign, ast.Expr, ast.Return))]
     ck.verdict(f"{out_list}.append('}}')" in st and f"return '\\n'.join({out_list})" in st, "C16.c", pd, "digraph{ ... }", "the text is one digraph block", "graph delimiters changed")
